@@ -5,7 +5,7 @@ package main
 // C07: a message of death is contained.  Child processes (this test binary re-executed
 // with ROBUSTIRC_TESTING_ENABLE_PANIC_COMMAND=1) apply a log through the real FSM.Apply
 // with real stores; the parent enumerates histories x position and role of the crashing
-// entry x encoding x snapshot placement, inspects exit status and the durable raft log,
+// entry x encoding x snapshot placement (none, before the crash, after it without / with folding the marked entry), inspects exit status and the durable raft log,
 // and starts further children for the restart(s).
 
 import (
@@ -49,11 +49,11 @@ func (c c07Case) String() string {
 }
 
 type c07ChildOut struct {
-	Dump     string            `json:"dump"`
-	Markers  map[string]uint64 `json:"markers"`
-	Outputs  map[string]string `json:"outputs"`
-	Applied  int               `json:"applied"`
-	Note     string            `json:"note"`
+	Dump    string            `json:"dump"`
+	Markers map[string]uint64 `json:"markers"`
+	Outputs map[string]string `json:"outputs"`
+	Applied int               `json:"applied"`
+	Note    string            `json:"note"`
 }
 
 func c07Outputs(ids []uint64) map[string]string {
@@ -103,6 +103,10 @@ func TestVerifC07Child(t *testing.T) {
 	out := &c07ChildOut{Markers: map[string]uint64{}}
 	snapshot := func(index uint64) {
 		*canaryCompactionStart = c02Epoch - int64(time.Hour) // compact nothing: the placement is what matters here
+		if c.Snapshot == "after-fold" {
+			// ... or everything: the marked entry itself is folded into the snapshot state
+			*canaryCompactionStart = c02Epoch + int64(1000*time.Hour)
+		}
 		s, err := fsm.Snapshot()
 		if err != nil {
 			out.Note += "snapshot failed: " + err.Error() + ";"
@@ -173,14 +177,14 @@ func TestVerifC07Child(t *testing.T) {
 			}
 			fsm.Apply(extra)
 			ids = append(ids, c.Extra.Id)
-			if c.Snapshot == "after" {
+			if c.Snapshot == "after" || c.Snapshot == "after-fold" {
 				snapshot(c.Extra.Id)
 			}
 		}
 	}
 	out.Dump = c02CreationRe.ReplaceAllString(ircserver.VerifDump(ircServer, ircserver.VerifDumpOpts{}), "creation=X")
 	for id := range ircServer.GetSessions() {
-		out.Markers[fmt.Sprintf("%d.%d", id.Id, id.Reply)] = ircServer.LastPostMessage(id)
+		out.Markers[fmt.Sprintf("%d.%d", id.Id, id.Reply)] = ircserver.VerifMarker(ircServer, id)
 	}
 	out.Outputs = c07Outputs(ids)
 	b, _ := json.Marshal(out)
@@ -224,7 +228,7 @@ func c07Cases(thorough bool) []c07Case {
 				}
 				for _, pb := range []bool{true, false} {
 
-					for _, snap := range []string{"none", "before", "after"} {
+					for _, snap := range []string{"none", "before", "after", "after-fold"} {
 						if snap == "before" && pos < 3 {
 							continue
 						}
@@ -447,7 +451,7 @@ func TestVerifC07(t *testing.T) {
 			// the marker (when it is the session's last entry, the marker is its client message id)
 			for id := range twin.Srv.GetSessions() {
 				key := fmt.Sprintf("%d.%d", id.Id, id.Reply)
-				if want := twin.Srv.LastPostMessage(id); co.Markers[key] != want {
+				if want := ircserver.VerifMarker(twin.Srv, id); co.Markers[key] != want {
 					kind := "duplicate-detection marker differs"
 					if id == c.Entries[c.Crash].Session && want == c.Entries[c.Crash].ClientMessageId {
 						kind = "duplicate-detection marker did not advance for the message of death"
@@ -459,6 +463,9 @@ func TestVerifC07(t *testing.T) {
 				rep("message of death produced output ("+stage+")", co.Outputs[strconv.FormatUint(crashId, 10)])
 			}
 			for id, w := range twinOut {
+				if c.Snapshot == "after-fold" {
+					break // the snapshot folded everything, the outputs are legitimately gone (C02 decides that)
+				}
 				if got := co.Outputs[strconv.FormatUint(id, 10)]; got != w {
 					rep("output of another entry differs after "+stage, fmt.Sprintf("input %d: %q vs %q", id, got, w))
 					break
@@ -514,6 +521,7 @@ func TestVerifC07(t *testing.T) {
 			if code != 0 {
 				rep("node does not come up on the second restart", fmt.Sprintf("exit status %d: %s", code, tail))
 			} else {
+				// (after a snapshot that folded everything the outputs are legitimately gone: C02 decides that)
 				compare("second restart", true)
 			}
 		}
